@@ -301,12 +301,16 @@ class Ctx:
 
 
 def load_known(pid):
-    path = os.path.join(VERIF, "known_findings.json")
-    if not os.path.exists(path):
-        return []
-    with open(path) as fh:
-        data = json.load(fh)
-    return [k for k in data.get("findings", []) if k.get("property") == pid]
+    paths = [os.path.join(VERIF, "known_findings.json")]
+    kd = os.path.join(VERIF, "known.d")  # proposals not yet merged by the coordinator
+    if os.path.isdir(kd):
+        paths += [os.path.join(kd, f) for f in sorted(os.listdir(kd)) if f.endswith(".json")]
+    res = []
+    for path in paths:
+        if os.path.exists(path):
+            with open(path) as fh:
+                res += [k for k in json.load(fh).get("findings", []) if k.get("property") == pid]
+    return res
 
 
 def match_known(pred, key):
